@@ -13,10 +13,24 @@ import (
 // arguments (without the receiver, which is `recv`), and local variables of the
 // caller that are defined at the call are visible by name.
 func (f *Frame) callSiteAsserts(instr *ssa.Call, cc *ssa.CallCommon, calleeName string, args []string, reach string, st *State) {
-	if f != f.top || f.contract == nil {
+	top := f.top
+	if top == nil || top.contract == nil {
 		return
 	}
-	for _, a := range f.contract.Asserts {
+	if f != top {
+		// also inside closures of the function under contract that are executed inline
+		// (critical-section callbacks): their call sites belong to the same source function
+		isClosure := false
+		for p := f.fn.Parent(); p != nil; p = p.Parent() {
+			if p == top.fn {
+				isClosure = true
+			}
+		}
+		if !isClosure {
+			return
+		}
+	}
+	for _, a := range top.contract.Asserts {
 		if !strings.HasPrefix(a.Anchor, "call ") {
 			continue
 		}
@@ -25,7 +39,13 @@ func (f *Frame) callSiteAsserts(instr *ssa.Call, cc *ssa.CallCommon, calleeName 
 		if !(short == want || strings.HasSuffix(short, "/"+want) || strings.HasSuffix(short, "."+want) || strings.HasSuffix(short, want) && strings.HasPrefix(want, ".")) {
 			continue
 		}
-		env := f.funcEnv(st, f.entry)
+		if top.callSnaps == nil {
+			top.callSnaps = map[string]*State{}
+		}
+		if _, seen := top.callSnaps[want]; !seen {
+			top.callSnaps[want] = st.clone()
+		}
+		env := f.funcEnv(st, top.entry)
 		var blk *ssa.BasicBlock
 		if instr != nil {
 			blk = instr.Block()
@@ -64,7 +84,7 @@ func (f *Frame) callSiteAsserts(instr *ssa.Call, cc *ssa.CallCommon, calleeName 
 		if err != nil {
 			f.bail("assert at %s %q: %v", a.Anchor, a.Text, err)
 		}
-		f.assertsHit[a.Anchor+"|"+a.Text] = true
+		top.assertsHit[a.Anchor+"|"+a.Text] = true
 		f.oblig("assert", cc.Pos(), fmt.Sprintf("at %s: %s", a.Anchor, a.Text), reach, g)
 	}
 }
